@@ -52,6 +52,7 @@ class GenCtx:
         self.group_cfgs: List[Dict[str, Any]] = []
         self.hashseeds: List[int] = [0]
         self.twins: Dict[str, List[str]] = {}
+        self.deep: List[str] = []
 
 
 def enumerate_paths(adj: Dict[str, List[int]], entry: int, max_len: int, cap: int) -> List[List[str]]:
@@ -169,10 +170,16 @@ class SessionBuilder:
     def single(self, cid: str, s1: Any, keep: bool = True) -> Dict[str, Any]:
         dets = _det_subset(self.rng, self.ctx.detectors)
         op: Dict[str, Any] = {"op": "single", "c": cid, "dets": dets, "runs": _runs(self.rng, dets), "s1": s1}
+        if self.rng.random() < 0.15:
+            op["printers"] = self._side(self.rng)
         if keep:
             op["h"] = self.handle("X")
             self.tealers.append((op["h"], cid, list(dets)))
         return self.add(op)
+
+    def _side(self, rng: random.Random) -> List[str]:
+        names = list(self.ctx.printers) + ["regex"]
+        return [rng.choice(names) for _ in range(rng.randrange(1, 3))]
 
     def rerun(self, s1: Any) -> Optional[Dict[str, Any]]:
         if not self.tealers:
@@ -180,7 +187,10 @@ class SessionBuilder:
         h, _cid, dets = self.rng.choice(self.tealers)
         extra = [d for d in _det_subset(self.rng, self.ctx.detectors) if d not in dets][:2]
         dets.extend(extra)
-        return self.add({"op": "rerun", "h": h, "dets": extra, "runs": _runs(self.rng, dets), "s1": s1})
+        op: Dict[str, Any] = {"op": "rerun", "h": h, "dets": extra, "runs": _runs(self.rng, dets), "s1": s1}
+        if self.rng.random() < 0.2:
+            op["printers"] = self._side(self.rng)
+        return self.add(op)
 
     def parse(self, cid: str) -> Dict[str, Any]:
         h = self.handle("T")
@@ -210,7 +220,17 @@ class SessionBuilder:
             op["name"] = "fn_%d" % self.rng.randrange(1000)
         if keep:
             op["f"] = self.handle("F")
-        return self.add(op)
+        self.add(op)
+        if op.get("invalid") and self.ctx.deep and self.rng.random() < 0.4:
+            # the same rejected-path build on a contract that needs all the stack there is, then its
+            # analysis: whatever a failed build leaves changed about resource limits shows here
+            deep = self.rng.choice(self.ctx.deep)
+            hd = self.handle("T")
+            self.add({"op": "parse", "c": deep, "h": hd})
+            self.add({"op": "build", "h": hd, "path": ["B0", "B99999"], "s1": "id", "invalid": True})
+            self.add({"op": "single", "c": deep, "dets": [], "runs": [], "s1": "id"})
+            self.add({"op": "drop", "h": hd})
+        return op
 
     def cli(self, cid: str, s1: Any) -> Dict[str, Any]:
         """One in-process `tealer ...` command line, drawn from the whole CLI vocabulary: a client
@@ -382,6 +402,10 @@ def gen_c14_session(seed: int, index: int, ctx: GenCtx, faulty: bool, max_ops: i
                     # cell interrupted and re-executed): other detectors, same contexts
                     dets = _det_subset(rng, ctx.detectors)
                     b.add({"op": "rerun", "h": op["h"], "dets": dets, "runs": _runs(rng, dets), "s1": _s1(rng, policy)})
+                if ctx.deep and rng.random() < 0.12:
+                    # a contract that only fails for lack of stack depth tells whether a resource
+                    # limit was left changed
+                    b.single(rng.choice(ctx.deep), "id", keep=False)
                 if rng.random() < 0.8:
                     probe = b.single(ccid if ccid in ctx.info else cid, _s1(rng, policy), keep=False)
                     if rng.random() < 0.4:
@@ -497,6 +521,8 @@ def add_group_op(b: SessionBuilder, rng: random.Random, ctx: GenCtx, s1: Any) ->
     if op is None:
         return None
     op["s1"] = s1
+    if rng.random() < 0.3:
+        op["printers"] = b._side(rng)  # pylint: disable=protected-access
     if rng.random() < 0.4:
         op["h"] = b.handle("G")
     return b.add(op)
